@@ -211,6 +211,9 @@ func (c05) Run(c *fw.Ctx) {
 		op := genOp(r, l, now, histOpts{noReopen: true, hostileValues: true, maxBatch: 25})
 		if op.Kind == "sync" || op.Kind == "reopen" {
 			op = Op{Kind: "advance", Delta: 1, Now: now + 1}
+			if now+1 > int64(1)<<32-1-2*l.MaxStep()-1 {
+				op = Op{Kind: "advance", Delta: 0, Now: now} // stay inside the clock domain
+			}
 		}
 		if k == 1 {
 			// directed: dirty a slot that straddles a page boundary (if the layout has one near the ring start)
